@@ -117,6 +117,8 @@ class Loader:
             src = f.read()
         rel = os.path.relpath(path, self.repo)
         if rel in getattr(self, "overrides", {}):
+            global MUTATED
+            MUTATED = True  # from here on this process is running a must-fail mutant: nothing it finds is reported about /repo
             src = self.overrides[rel]  # in-memory must-fail mutant; nothing is written to /repo
         tree = ast.parse(src, filename=path)
         m = Module(modname, path, tree, src)
